@@ -496,6 +496,17 @@ func init() {
 			tc.k, tc.p = 64, 7
 			c.runTrie(tc, "bytes256/every-key")
 		}
+		// long sequences (deep, unbranched paths): Delete must prune every emptied
+		// ancestor however deep; lengths around 64, 256 and beyond
+		for _, ln := range []int{63, 64, 65, 66, 127, 128, 129, 255, 256, 257, 1000, 4999} { // 5000 and deeper: known finding D11 (corpus/C15.txt)
+			x := c.RandBytes(ln, []byte("ab"))
+			y := append(append([]byte{}, x[:ln/2]...), 'c') // branches off half way down
+			var tc trieCase
+			tc.ops = []trieOp{{false, x}, {true, x}, {false, x}, {false, y}, {true, x}, {true, y}, {false, x}, {true, x[:1]}, {false, x}, {true, x[:ln-1]}}
+			tc.queries = [][]byte{x, x[:1], x[:ln/2], x[:ln-1], y, []byte("a"), []byte("b")}
+			tc.k, tc.p = 1, 2
+			c.runTrie(tc, "long-sequences", fmt.Sprintf("long-sequences/len=%d", ln))
+		}
 		nb := c.Pick(200, 3000)
 		for i := 0; i < nb; i++ {
 			var alpha []byte
